@@ -466,3 +466,15 @@ class _:
         from dimarray.lib.stats import percentile
         return percentile(a, q, axis=r)
     def coq(q, r): raise Unsupported('percentile is checked by the oracle only (np.percentile is not modelled)')
+
+@op('compare')
+class _:
+    def run(a, ins, o, v):
+        import operator
+        return {'==': operator.eq, '<': operator.lt, '>=': operator.ge, '!=': operator.ne}[o](a, v)
+    def coq(o, v): raise Unsupported('comparisons are checked by the oracle only')
+
+@op('neg')
+class _:
+    def run(a, ins): return -a
+    def coq(): raise Unsupported('unary ops are checked by the oracle only')
